@@ -14,6 +14,7 @@ mod d_dlint;
 mod d_embed;
 mod d_entry;
 mod d_fixb;
+mod d_fixrest;
 mod d_fixsmall;
 mod d_imp;
 mod d_limits;
@@ -142,6 +143,7 @@ fn main() {
     "vms" => d_vms::run(&args),
     "ws" => d_ws::run(&args),
     "fixsmall" => d_fixsmall::run(&args),
+    "fixrest" => d_fixrest::run(&args),
     "imp" => d_imp::run(&args),
     "txt" => d_txt::run(&args),
     "dlint" => d_dlint::run_all(&args),
